@@ -209,12 +209,44 @@ brk('C04', 'R04.6', 'pyiga/hierarchical.py', 'pyiga.hierarchical.HSpace._mark_re
 twin('C04', 'pyiga/hierarchical.py', 'pyiga.hierarchical.HSpace._mark_recursive', r"self\._mark_recursive\(l-self\.disparity, marked, truncate=truncate\)", 'self._mark_recursive(-self.disparity + l, marked, truncate=truncate)', 'commuted level expression')
 brk('C05', 'R05.4', 'pyiga/hierarchical.py', 'pyiga.hierarchical.HSpace.represent_fine', r"Pj\[act_indices\[k\+1\], :\] = 0", 'Pj[self.active_indices()[k+1], :] = 0', 'truncation zeroes the rows of a different index list than the column blocks use')
 twin('C05', 'pyiga/hierarchical.py', 'pyiga.hierarchical.HSpace.represent_fine', r"Pj\[act_indices\[k\+1\], :\] = 0", 'Pj[act_indices[1+k], :] = 0', 'commuted subscript')
-brk('C06', 'R06.7', 'pyiga/vform.py', 'pyiga.vform.VForm.basisderiv_as_var', r"inner\(self\.JacInv\[self\.spacedims, k\], spacegrad\)", 'inner(self.JacInv[k, self.spacedims], spacegrad)', 'row and column roles of JacInv swapped at one sibling site')
+brk('C06', 'R06.7', 'pyiga/vform.py', 'pyiga.vform.VForm.replace_physical_derivs', r"inner\(self\.JacInv\[self\.spacedims, k\], spacegrad\)", 'inner(self.JacInv[k, self.spacedims], spacegrad)', 'row and column roles of JacInv swapped at one sibling site')
 brk('C08', 'R08.5', 'pyiga/assemble.py', 'pyiga.assemble.assemble_entries_vec', r"(\n(\s*)if layout == 'blocked':\n\s*axes = \(dim,\) \+ tuple\(range\(dim\)\)   # bring last axis to the front)", r"\n\2if format == 'mlb':\n\2    return X\1", 'an exit added before the layout permutation')
 brk('C10', 'R10.1', 'pyiga/assemble.py', 'pyiga.assemble.RestrictedLinearSystem.__init__', r"values = np\.asarray\(values\)\[np\.argsort\(indices, kind='stable'\)\]", 'values = np.asarray(values)[np.unique(indices, return_inverse=True)[1]]', 'rank of the indices used where the sorting permutation is needed')
 brk('C11', 'R11.4', 'pyiga/solvers.py', 'pyiga.solvers.iterative_solve', r"x = x0\n(\s*)res0 = f - A @ x", r"x = x0\n\1res0 = f", 'reference residual ignores the starting vector')
 twin('C11', 'pyiga/solvers.py', 'pyiga.solvers.iterative_solve', r"x = x0\n(\s*)res0 = f - A @ x", r"x = x0\n\1res0 = f - A.dot(x0)", 'reference residual through x0 and dot()')
 brk('C12', 'R12.8', 'pyiga/solvers.py', 'pyiga.solvers._adaptive_step_method.<locals>._method', r"xnew, xhat, Fxnew = stepper\(M, F, J, x, tau, data, Fx=Fx\)", 'xnew, xhat, Fx = stepper(M, F, J, x, tau, data, Fx=Fx)', 'loop-carried Fx overwritten by a trial step that may be rejected')
+
+# ---- rules added after the second wave (seeded/S09..S20)
+_HASH_SORTED = r"\1\n    def hash(self, child_hashes):\n        return Expr.hash(self, tuple(sorted(child_hashes)))\n"
+_HASH_FSET = r"\1\n    def hash(self, child_hashes):\n        return Expr.hash(self, (frozenset(child_hashes),))\n"
+_HASH_POS = r"\1\n    def hash(self, child_hashes):\n        return Expr.hash(self, tuple(child_hashes))\n"
+_HK = r"(    def hash_key\(self\):\n        return \(self\.oper,\)\n)"
+brk('C01', 'R01.9', 'pyiga/vform.py', None, _HK, _HASH_SORTED, 'ScalarOperExpr hashes its operands as a sorted tuple')
+brk('C06', 'R06.2', 'pyiga/vform.py', None, _HK, _HASH_FSET, 'ScalarOperExpr hashes its operands as a set')
+brk('C13', 'R13.1', 'pyiga/vform.py', None, _HK, _HASH_SORTED, 'ScalarOperExpr hashes its operands as a sorted tuple')
+twin('C01', 'pyiga/vform.py', None, _HK, _HASH_POS, 'hash override that keeps the operands positional')
+twin('C13', 'pyiga/vform.py', None, _HK, _HASH_POS, 'hash override that keeps the operands positional')
+brk('C13', 'R13.1', 'pyiga/vform.py', 'pyiga.vform.PartialDerivExpr.hash_key', r"return \(self\.basisfun\.hash\(\), self\.D, self\.physical\)", 'return (self.basisfun.hash(), self.D, self.physical and any(self.D))', 'physical flag enters the key through a boolean expression')
+brk('C06', 'R06.1', 'pyiga/vform.py', 'pyiga.vform.PartialDerivExpr.hash_key', r"return \(self\.basisfun\.hash\(\), self\.D, self\.physical\)", 'return (self.basisfun.hash(), self.D if self.physical else None)', 'derivative orders and flag merged by a conditional expression')
+twin('C13', 'pyiga/vform.py', 'pyiga.vform.PartialDerivExpr.hash_key', r"return \(self\.basisfun\.hash\(\), self\.D, self\.physical\)", 'phys = self.physical\n        return (self.basisfun.hash(), tuple(self.D), phys)', 'flag through a local, D through tuple()')
+brk('C02', 'R02.3', 'pyiga/bspline.py', 'pyiga.bspline.KnotVector.findspan', r"return pyx_findspan\(self\.kv, self\.p, u\)", "return min(self.kv.searchsorted(u, side='right') - 1, len(self.kv) - self.p - 1)", 'Python span search clamped one span too far')
+twin('C02', 'pyiga/bspline.py', 'pyiga.bspline.KnotVector.findspan', r"return pyx_findspan\(self\.kv, self\.p, u\)", "return min(self.kv.searchsorted(u, side='right') - 1, len(self.kv) - 2 - self.p)", 'Python span search clamped to the last non-empty span')
+brk('C07', 'R07.4', 'pyiga/geometry.py', 'pyiga.geometry.NurbsFunc.grid_hessian', r"np\.triu_indices\(mat\.shape\[-1\]\)", 'np.tril_indices(mat.shape[-1])', 'lower triangle: xz and yy swapped in 3D')
+brk('C07', 'R07.4', 'pyiga/geometry.py', 'pyiga.geometry.NurbsFunc.grid_hessian', r"np\.triu_indices\(mat\.shape\[-1\]\)", 'np.triu_indices(mat.shape[-1], 1)', 'diagonal entries dropped from the linearisation')
+twin('C07', 'pyiga/geometry.py', 'pyiga.geometry.NurbsFunc.grid_hessian', r"np\.triu_indices\(mat\.shape\[-1\]\)", 'np.triu_indices(mat.shape[-1], k=0)', 'explicit k=0')
+brk('C14', 'R14.1', 'pyiga/assemble.py', 'pyiga.assemble.Multipatch.join_dofs', r"elif sd1 is not None:", 'elif sd1:', 'class id tested by truth value (class 0 is falsy)')
+brk('C16', 'R16.5', 'pyiga/tensor.py', 'pyiga.tensor.apply_tprod', r"np\.rollaxis\(A, n-1, 0\)", 'np.rollaxis(A, -1, 0)', 'identity branch rolls the last axis instead of axis n-1')
+twin('C16', 'pyiga/tensor.py', 'pyiga.tensor.apply_tprod', r"np\.rollaxis\(A, n-1, 0\)", 'np.moveaxis(A, -1 + n, 0)', 'moveaxis with a commuted axis expression')
+brk('C17', 'R17.6', 'pyiga/assemble.py', 'pyiga.assemble.integrate', r"geo_det = np\.abs\(assemble_tools\.determinants\(geo_jac\)\)", 'geo_det = assemble_tools.determinants(geo_jac)', 'signed determinant as integration weight')
+twin('C17', 'pyiga/assemble.py', 'pyiga.assemble.inner_products', r"geo_det = np\.abs\(assemble_tools\.determinants\(geo_jac\)\)", 'geo_det = np.absolute(assemble_tools.determinants(geo_jac))', 'np.absolute')
+brk('C18', 'R18.6', 'pyiga/tensor.py', 'pyiga.tensor.find_truncation_rank', r"total_err_squ \+= err\*\*2\n(\s*)if total_err_squ > tolsq:", r"if total_err_squ + err**2 > tolsq:", 'accumulation of the discarded energy lost')
+twin('C18', 'pyiga/tensor.py', 'pyiga.tensor.find_truncation_rank', r"total_err_squ \+= err\*\*2\n", 'total_err_squ = total_err_squ + err**2\n', 'accumulation written as a plain assignment')
+brk('C19', 'R19.6', 'pyiga/bspline.py', 'pyiga.bspline.KnotVector.refine', r"mesh = self\.mesh\n", 'mesh = self.kv[self.p:-self.p] if self.p else self.kv\n', 'midpoints between consecutive raw knots')
+twin('C19', 'pyiga/bspline.py', 'pyiga.bspline.KnotVector.refine', r"mesh = self\.mesh\n", 'mesh = np.unique(self.kv)\n', 'breakpoints through np.unique')
+brk('C20', 'R20.3', 'pyiga/compile.py', 'pyiga.compile._compile_cython_module_nocache', r"(\n(\s*))os\.replace\(built, os\.path\.join\(MODDIR, os\.path\.basename\(built\)\)\)",
+    r"\1if not os.path.isfile(os.path.join(MODDIR, os.path.basename(built))):\1    os.replace(built, os.path.join(MODDIR, os.path.basename(built)))", 'existing cache entry is never replaced')
+twin('C20', 'pyiga/compile.py', 'pyiga.compile._compile_cython_module_nocache', r"(\n(\s*))os\.replace\(built, os\.path\.join\(MODDIR, os\.path\.basename\(built\)\)\)",
+     r"\1target = os.path.join(MODDIR, os.path.basename(built))\1os.replace(built, target)", 'target through a local')
 
 
 def recipes_for(prop):
